@@ -7,7 +7,7 @@ B = bounded stand-in on the real function (never counted as proved); A = assumed
 A_STD = "A-std: vstd's specifications of BTreeMap/HashMap/HashSet/Vec/Option/String plus the std facts added in units/*.vrs as external_body items (ToString is a function of its argument; R13 adapters for Vec::extend / Vec::drain; u8/u16 little-endian codecs)"
 A_KEY = "A-key: String and ChitchatId obey the ordering / hashing key model required by vstd's map specs (keys_ok, ids_ok, obeys_key_model), and a &str looks up the String with the same content (str_axioms)"
 A_DERIVE = "A-derive: derived PartialEq/PartialOrd on Heartbeat compare the single field; derived Default of DeltaBuilder is the empty builder"
-A_SVV = "A-svv: the contract of NodeState::set_versioned_value is assumed in Verus (BTreeMap Entry API is unspecified in vstd); the same contract is checked on the real function by the bounded native driver svv_contract"
+A_SVV = "A-svv (R15): NodeState::set_versioned_value is verified with the BTreeMap Entry idiom read as get_mut / insert (vstd does not specify the Entry API): `match m.entry(k) { Occupied(o) => .. o.get_mut() .., Vacant(v) => v.insert(e) }` is taken to mean `match m.get_mut(&k) { Some(o) => .., None => m.insert(k, e) }`; the key-change event construction is dropped and Listeners::trigger_event(&self) is a no-effect stub; the proved contract is also checked on the real function by the bounded native driver svv_contract"
 A_TERM = "A-term: termination of loops desugared by R6 is not proved (exec_allows_no_decreases_clause)"
 A_INT = "machine integers: max_version < u64::MAX is a stated precondition of the local write operations; no delta op is 2 GiB long (usize arithmetic in the size bound)"
 A_CLOCK = "A-clock: tokio Instant is opaque; verified code only calls Instant::now() and copies the value"
@@ -385,6 +385,21 @@ PROPS["C20"]["level_text"] += " Chitchat::process_delta is proved to reach the c
 PROPS["C20"]["level_note"] = "The callback itself is a Box<dyn Fn()> (opaque); that it is invoked exactly once - not zero times - when the flag is raised is read off the three-line call site and checked by the bounded driver c20_callback with a counting callback (0/1/2 resets per message, newly created members)."
 PROPS["C12"]["verus"].append({"unit": U5, "fns": ["Chitchat::update_nodes_liveness"]})
 PROPS["C12"]["level_text"] += " The two self-id guards of Chitchat::update_nodes_liveness are proved (watch-channel part elided, R11): the local node is never handed to the detector for evaluation and never removed whatever the node GC returns; every other known member is evaluated; an evaluation never adds members."
+PROPS["C10"]["verus"].append({"unit": U4, "fns": ["SamplingWindow::new"]})
+PROPS["C10"]["level_text"] += " SamplingWindow::new is proved to install exactly the configured max_interval as the interval filter of a fresh, empty window (BoundedArrayStats::with_capacity assumed, A-std)."
+PROPS["C11"]["verus"].append({"unit": U5, "fns": ["ClusterState::remove_node", "Chitchat::update_nodes_liveness"]})
+PROPS["C11"]["native"].append(N_C12)
+PROPS["C11"]["level_text"] += " ClusterState::remove_node is proved to remember exactly the heartbeat known at removal for every removed member (whatever its key-values), which is what the re-creation guard of report_heartbeat compares a later digest against: a replay of the heartbeat last seen never re-creates the member."
+PROPS["C02"]["native"].append(N_C06)
+PROPS["C02"]["verus"].append({"unit": U4, "fns": ["gc_retain_entry"]})
+PROPS["C02"]["level_text"] += " The GC predicate (closure body of gc_keys_marked_for_deletion, sliced) is proved to leave the running watermark at the max of itself and every collected version - so the watermark of an owner or a copy is never below a version it has collected."
+for _p in [k for k, v in PROPS.items() if A_SVV in v["assumptions"]]:
+    for _e in PROPS[_p]["verus"]:
+        if _e["unit"] in (U1, U2, U5) and "NodeState::set_versioned_value" not in _e["fns"] and any(f.startswith("NodeState::") or f.startswith("ClusterState::apply_delta") for f in _e["fns"]):
+            _e["fns"] = list(_e["fns"]) + ["NodeState::set_versioned_value"]
+            break
+    else:
+        PROPS[_p]["verus"].append({"unit": U1, "fns": ["NodeState::set_versioned_value"]})
 U2_CODEC = ["ChitchatId::serialize", "ChitchatId::serialized_len", "Heartbeat::serialize", "Heartbeat::serialized_len", "NodeDigest::serialize",
             "NodeDigest::serialized_len", "alloc::string::String::serialize", "alloc::string::String::serialized_len",
             "DeletionStatusMutation::serialize", "DeletionStatusMutation::serialized_len", "KeyValueMutationRef::serialize",
